@@ -48,13 +48,10 @@ impl<T: Write + Read + Seek> PagedWriter<T> {
 
     /// Seek to a specific physical offset in the file.
     pub fn physical_seek(&mut self, pos: u64) -> Result<()> {
-        // Make sure we wrote any current (partial) page before seeking
-        self.flush().write_err("Failed to flush before seeking")?;
-
-        let end = self
-            .writer
-            .seek(SeekFrom::End(0))
-            .write_err("Failed to seek to file end")?;
+        // Make sure we wrote any current (partial) page before seeking.
+        // Getting the size flushes and leaves the position of the underlying
+        // writer untouched, so a rejected seek does not move it.
+        let end = self.physical_size()?;
         if pos > end {
             Error::invalid("Cannot seek after end of file")?
         }
